@@ -12,8 +12,8 @@ TEXT = {
          "prelude specs of core integer methods (trusted, listed); signed `/` `%` axiom; mul/div wrapper forms verified by Kani on 8-bit layouts only"),
  "C03": ("Verus proves fixed_cmp_fixed (all six operators) for all 100 family pairs with both Frac symbolic against the exact ordering, on top of the to_fixed_helper contract; Kani function contracts on to_fixed_helper and to_float_kind (all inputs x all 507 layouts, symbolic layout) plus loop-free full-domain harnesses of the comparison macro bodies on all pairs of 8-bit layouts, cross-width samples, all integer types, f32/f64 against the exact ordering",
          "integer and float comparison macro bodies are proved for the instantiated type pairs only (Kani); to_fixed_helper contract is assumed in Verus and discharged by Kani; oracles in machine integers written from the property"),
- "C04": ("Kani function contracts on to_fixed_helper (all layouts) and loop-free full-domain harnesses of the conversion policies on all pairs of 8-bit layouts, 10 integer types, cross-width samples, From/LossyFrom instances",
-         "policy glue proved for instantiated type pairs only; typenum bounds of From/LossyFrom are checked by instantiation, not symbolically"),
+ "C04": ("Verus proves `impl FromFixed` (all five forms) for the ten destination families with symbolic Frac, generic over every source type, and the typenum bounds of 371 From/LossyFrom impls; Kani function contracts on to_fixed_helper (all layouts) and loop-free full-domain harnesses of the conversion policies on all pairs of 8-bit layouts, 10 integer types, cross-width samples, From/LossyFrom instances",
+         "to_fixed_helper contract assumed in Verus, discharged by Kani; integer conversions (impl_int!) and From/LossyFrom bodies verified by Kani on instantiated pairs only"),
  "C05": ("Kani function contracts: from_to_float_helper equals an independent IEEE-754 RNE encoder bit for bit, and to_float_kind equals the exact rounding of the decoded float, for every f32/f64 bit pattern and every layout (symbolic)",
          "IEEE-754 format definition in the oracle; per-family policy glue harness pending"),
  "C06": ("Verus proves the mask constants, int, frac, round_to_zero and all 20 rounding forms of all ten families with a symbolic Frac against floor/ceil/round/ties-even/to-zero over unbounded integers; every contracted function has a rejected `ensures false` twin",
